@@ -238,7 +238,7 @@ PROPS = {
             "in the format modules. Does NOT decide implicit exceptions from corrupted values (IndexError, KeyError, TypeError), "
             "wall-time, or cross-format exclusivity."
         ),
-        rules=[(R_c20.r_raise, Q), (R_c20.r_wrap, Q), (R_c20.r_progress, Q), (R_fm.r_tabwalk, Q), (R_fm.r_name_formats, Q), (R_fm.r_priv_formats, Q)],
+        rules=[(R_c20.r_raise, Q), (R_c20.r_wrap, Q), (R_c20.r_progress, Q), (R_fm.r_tabwalk, Q), (R_fm.r_rectab, Q), (R_fm.r_name_formats, Q), (R_fm.r_priv_formats, Q)],
         level_text="partial: interprocedural may-raise (explicit) effect analysis over the call graph of the six format constructors, contract check of the unpack overrides, loop-progress shape check; the tests only open well-formed samples",
         level_note="Trusted: by-name callee resolution (constructors, self.method through the by-name MRO, module functions); implicit exceptions of unresolved callees are out of scope except through R-WRAP's catch-all requirement; one single-symbol exemption (MachO.__read_symtab NotImplementedError: magic already checked) is listed with its reason in RAISE_EXEMPT.",
         technique="interprocedural may-raise effect analysis + handler-contract and loop-progress shape checks on the AST",
